@@ -54,6 +54,7 @@ func mBig(m M, k string) *big.Int {
 	}
 	return b
 }
+
 // mU64 reads a uint64 in schedule form: values >= CAP are codes of the saturating abstraction
 // (proj.go absBig) and stand for boundary numbers around 2^63 / 2^64.
 func mU64(m M, k string) uint64 {
@@ -63,7 +64,7 @@ func mU64(m M, k string) uint64 {
 	}
 	return b.Uint64()
 }
-func mI64(m M, k string) int64  { return mBig(m, k).Int64() }
+func mI64(m M, k string) int64 { return mBig(m, k).Int64() }
 func mBool(m M, k string) bool {
 	if v, ok := m[k]; ok {
 		if b, ok := v.(bool); ok {
